@@ -1,5 +1,5 @@
 """Translator anchors for fedjax/models/stackoverflow.py (C20)."""
-from lib.c20tr import A_localconsts, A_default, A_metric_ids
+from lib.c20tr import A_localconsts, A_default, A_metric_ids, A_train_loss
 
 SRC = 'fedjax/models/stackoverflow.py'
 SPEC = [('pad', 'so_pad'), ('bos', 'so_bos'), ('eos', 'so_eos'), ('oov', 'so_oov'), ('full_vocab_size', 'so_full_vocab_size')]
@@ -12,5 +12,10 @@ MODULES = {
             A_localconsts('create_lstm_model', SPEC, ['vocab_size']),
             A_metric_ids('create_lstm_model', ['vocab_size'], SPEC, 'so_'),
         ],
+    },
+    'Gen_md_stackoverflow_loss': {
+        'src': SRC,
+        'preamble': 'From Coq Require Import QArith.\nFrom FV Require Import Common.QRow.\nLocal Open Scope Q_scope.\n',
+        'items': [A_train_loss('create_lstm_model', 'so_train_loss_row')],
     },
 }
